@@ -2,6 +2,7 @@ package c14
 
 import (
 	"fmt"
+	"os"
 	"math/big"
 
 	"github.com/Oneledger/protocol/action"
@@ -44,6 +45,24 @@ func World() *harness.World {
 	return w
 }
 
+// WorldScripted: the governance options can only be changed by a proposal if ALL proposal options are inside
+// the ranges the application validates (deadlines of at least 10 000 blocks), so the scripted histories run in
+// a world with the smallest legal deadlines and skip over them with long stretches of empty blocks; the pass
+// percentage of configuration-update proposals starts at 67 and is lowered to 51 in mid-life of the proposal
+// under test.
+const scriptedDeadline = 10000
+
+func WorldScripted() *harness.World {
+	w := harness.NewWorld("c14s", 4, 3)
+	w.Gov.PropOptions.ConfigUpdate.FundingDeadline = scriptedDeadline
+	w.Gov.PropOptions.ConfigUpdate.VotingDeadline = scriptedDeadline
+	w.Gov.PropOptions.ConfigUpdate.PassPercentage = 67
+	// the other proposal types are validated together with it
+	w.Gov.PropOptions.General.FundingDeadline, w.Gov.PropOptions.General.VotingDeadline = 75000, 75000
+	w.Gov.PropOptions.CodeChange.FundingDeadline, w.Gov.PropOptions.CodeChange.VotingDeadline = 10000, 150000
+	return w
+}
+
 // PropID is the one proposal of the search.
 var PropID = gov.PID("c14")
 
@@ -62,10 +81,11 @@ const (
 	opExpire
 	opFinalize
 	opStake
+	opGov // a transaction of the pass-percentage macro-operation on a SECOND proposal (not judged by this model)
 )
 
 func (k opKind) String() string {
-	return [...]string{"PROPOSAL_CREATE", "PROPOSAL_FUND", "PROPOSAL_VOTE", "PROPOSAL_CANCEL", "PROPOSAL_WITHDRAW_FUNDS", "EXPIRE_VOTES", "PROPOSAL_FINALIZE", "STAKE"}[k]
+	return [...]string{"PROPOSAL_CREATE", "PROPOSAL_FUND", "PROPOSAL_VOTE", "PROPOSAL_CANCEL", "PROPOSAL_WITHDRAW_FUNDS", "EXPIRE_VOTES", "PROPOSAL_FINALIZE", "STAKE", "GOVERNANCE-MACRO"}[k]
 }
 
 // op is one transaction of the alphabet, described by what the reference model needs to know.
@@ -79,11 +99,16 @@ type op struct {
 	Benef    int                     // withdraw: beneficiary user index
 	Legit    bool                    // a well-formed, authorised operation: must be accepted somewhere in the search
 	MinDepth int                     // smallest search depth at which a Legit op can be accepted
+	// opGov only
+	gov      func(w *harness.World, h int64, memo string) *harness.TxSpec
+	govPayer int   // validator index whose stake account signs and pays
+	govOut   int64 // whole OLT leaving the payer besides the fee
 }
 
 type event struct {
 	Name string
 	Ops  []op
+	Skip int // scripted histories only: this many EMPTY blocks are run first (oracle on the whole stretch at once), then the block with Ops
 }
 
 func oltAmt(n int64) action.Amount { return harness.Coin("OLT", harness.OLTUnits(n)) }
@@ -101,7 +126,7 @@ func (o op) build(w *harness.World, height int64, memo string) *harness.TxSpec {
 		if o.Type == governance.ProposalTypeConfigUpdate {
 			cfg = ConfigPayload
 		}
-		fd := height + fundingBlocks
+		fd := height + po.FundingDeadline
 		return gov.ProposalCreate(PropID, o.Type, "headline", "description", U[o.Actor], harness.Coin("OLT", *po.InitialFunding),
 			fd, &goal, fd+po.VotingDeadline, po.PassPercentage, cfg, memo)
 	case opFund:
@@ -120,6 +145,8 @@ func (o op) build(w *harness.World, height int64, memo string) *harness.TxSpec {
 	case opStake:
 		v := w.Vals[o.Actor]
 		return stk.Stake(v, v.Stake, stk.WholeOLT(o.Amount), memo)
+	case opGov:
+		return o.gov(w, height, memo)
 	}
 	panic("unknown op")
 }
@@ -129,6 +156,8 @@ func (o op) payer(w *harness.World) *harness.Account {
 	switch o.Kind {
 	case opVote, opStake:
 		return w.Vals[o.Actor].Stake
+	case opGov:
+		return w.Vals[o.govPayer].Stake
 	}
 	return w.Users[o.Actor]
 }
@@ -200,6 +229,72 @@ func Events(tier string) []event {
 		)
 	}
 	return ev
+}
+
+// ---------------------------------------------------------------------------------------------
+// Scripted histories: an option changes in the middle of the proposal's life
+// ---------------------------------------------------------------------------------------------
+
+// QPropID is a SECOND proposal, used only by the scripted histories: a configuration update that lowers the
+// pass percentage of configuration-update proposals from 67 to 51 while proposal PropID (created under 67)
+// is being voted on. The model does not judge it (its records, votes, funds and distribution are skipped);
+// what it changes is the OPTION that the proposal under test must NOT be re-read from.
+var QPropID = gov.PID("c14-pct")
+
+const QPayload = "propOptions.configUpdate.passPercentage:51"
+
+// scriptedBase is the index of the first scripted-only event (they are not part of the BFS alphabet).
+const scriptedBase = 1000
+
+func scriptedEvents() []event {
+	qCreate := op{Name: "pct:create", Kind: opGov, govPayer: 0, govOut: 10, gov: func(w *harness.World, h int64, memo string) *harness.TxSpec {
+		po := gov.PropOpts(w, governance.ProposalTypeConfigUpdate)
+		goal := *po.FundingGoal
+		fd := h + po.FundingDeadline
+		return gov.ProposalCreate(QPropID, governance.ProposalTypeConfigUpdate, "pct", "lower the pass percentage", w.Vals[0].Stake, harness.Coin("OLT", *po.InitialFunding),
+			fd, &goal, fd+po.VotingDeadline, po.PassPercentage, QPayload, memo)
+	}}
+	qFund := op{Name: "pct:fund", Kind: opGov, govPayer: 0, govOut: 90, gov: func(w *harness.World, h int64, memo string) *harness.TxSpec {
+		return gov.ProposalFund(QPropID, w.Vals[0].Stake, oltAmt(90), memo)
+	}}
+	qVote := func(i int) op {
+		return op{Name: fmt.Sprintf("pct:vote(V%d,yes)", i+1), Kind: opGov, govPayer: i, gov: func(w *harness.World, h int64, memo string) *harness.TxSpec {
+			return gov.ProposalVote(QPropID, w.Vals[i].Stake, w.Vals[i].Val, governance.OPIN_POSITIVE, memo)
+		}}
+	}
+	past := scriptedDeadline + 8 // well past the voting deadline of the proposal under test
+	if v := os.Getenv("VERIF_C14_SKIP"); v != "" {
+		fmt.Sscan(v, &past) // timing experiments only
+	}
+	return []event{
+		{Name: "create-config(A)+pct:create+fund", Ops: []op{oCreateC, qCreate, qFund}},  // 1000
+		{Name: "fund(C,90)+pct:votes(V1,V2 yes)", Ops: []op{oFundC, qVote(0), qVote(1)}}, // 1001
+		{Name: "vote(V1,yes)+vote(V3,yes)", Ops: []op{oV1Yes, oV3Yes}},                   // 1002: 4M of 6M = 66.7 %: above 51, below 67
+		{Name: "user-finalize(C)", Ops: []op{oFinalizeC}},                                // 1003
+		{Name: "user-expire(C)", Ops: []op{oExpireC}},                                    // 1004
+		{Name: "empty", Ops: nil},                                                        // 1005
+		{Name: "vote(V2,yes)", Ops: []op{oV2Yes}},                                        // 1006: 6M of 6M together with 1002
+		{Name: fmt.Sprintf("%d-empty-blocks;user-finalize(C)", past), Skip: past, Ops: []op{oFinalizeC}}, // 1007
+		{Name: fmt.Sprintf("%d-empty-blocks;user-expire(C)", past), Skip: past, Ops: []op{oExpireC}},     // 1008
+		{Name: fmt.Sprintf("%d-empty-blocks", past), Skip: past},                                         // 1009
+	}
+}
+
+// ScriptedHistories: the proposal under test is created under a pass percentage of 67 and collects 66.7 % of
+// YES votes; meanwhile the second proposal lowers the option to 51 and is finalised by the block hook; then the
+// proposal under test expires (or not yet) and a stranger sends PROPOSAL_FINALIZE / EXPIRE_VOTES at every later
+// point. By the statement it passes or fails "according to the recorded votes" under ITS OWN rule.
+func ScriptedHistories() [][]int {
+	b := scriptedBase
+	return [][]int{
+		{b + 0, b + 1, b + 2, b + 5, b + 7},        // expired by the hook (after 10 000 blocks), finalised by a stranger in a later block
+		{b + 0, b + 1, b + 2, b + 5, b + 3},        // finalise while still voting (undecided), after the option changed
+		{b + 0, b + 1, b + 2, b + 5, b + 8, b + 3}, // expired by a stranger after the deadline, then finalised
+		{b + 0, b + 1, b + 2, b + 5, b + 6},        // decided YES under its own rule after the option changed
+		{b + 0, b + 1, b + 5, b + 5, b + 7},        // no votes at all, expiry, finalise
+		{b + 0, b + 1, b + 2, b + 5, b + 7, b + 3}, // finalise twice
+		{b + 0, b + 1, b + 2, b + 5, b + 9, b + 5}, // nobody finalises: the hooks alone
+	}
 }
 
 func eventNames(ev []event) []string {
